@@ -263,6 +263,7 @@ type inst struct {
 	commitRoot [32]byte // Root() when the last Commit returned
 	muts       int      // state-changing calls so far (for the non-triviality rule)
 	tainted    bool     // reopened with un-committed changes: the property does not speak about it any more
+	garbage    bool     // a constructor with a failing identifier decoder started a new trie over the old records
 }
 
 func (in *inst) isMap() bool { return in.flavour != "set" }
@@ -618,7 +619,9 @@ func (ss *session) exec(op string) string {
 			return "bad-op"
 		}
 		in := &inst{flavour: fl, codec: cd, ctl: &codecCtl{}, tok: f[2], store: mapdb.NewMapDB(), want: map[string][]byte{}, committed: map[string][]byte{}}
-		ss.count("codec:" + cd.String())
+		ss.count("serializer:identifier=" + string(cd.id))
+		ss.count("serializer:key=" + string(cd.key))
+		ss.count("serializer:value=" + string(cd.val))
 		in.db = in.store
 		in.reopen()
 		ss.insts[idx] = in
@@ -661,7 +664,9 @@ func (ss *session) exec(op string) string {
 		}
 		ss.realms[d] = append(ss.realms[d], realm)
 		in := &inst{flavour: fl, codec: cd, ctl: &codecCtl{}, tok: f[2], store: view, db: db, realm: clone(realm), want: map[string][]byte{}, committed: map[string][]byte{}}
-		ss.count("codec:" + cd.String())
+		ss.count("serializer:identifier=" + string(cd.id))
+		ss.count("serializer:key=" + string(cd.key))
+		ss.count("serializer:value=" + string(cd.val))
 		in.reopen()
 		ss.insts[idx] = in
 		ss.count("instance-over-realm-view")
@@ -902,18 +907,60 @@ func (ss *session) execOn(in *inst, idx int, f []string) string {
 		}
 
 		return "stream " + showPairs(ps) + " " + end
+	case "idfail":
+		// idfail <i> enc|dec|both|off: the identifier serializers of the instance (and of the instances opened over
+		// its store from now on) fail
+		if len(f) != 3 {
+			return "bad-op"
+		}
+		switch f[2] {
+		case "off":
+			*in.ctl = codecCtl{}
+		case "enc":
+			*in.ctl = codecCtl{encFail: true}
+		case "dec":
+			*in.ctl = codecCtl{decFail: true}
+		case "both":
+			*in.ctl = codecCtl{encFail: true, decFail: true}
+		default:
+			return "bad-op"
+		}
+		ss.count("idfail:" + f[2])
+
+		return "ok"
 	case "commit":
 		if err := in.commit(); err != nil {
-			if check {
+			ans := "err"
+			if strings.Contains(err.Error(), "failed to set root") {
+				ans = "err-root"
+			}
+			if check && !(in.ctl.encFail && ans == "err-root") {
 				ss.fail("commit-ok", "commit", in, "Commit failed: "+err.Error())
 			}
+			if check && in.ctl.encFail && !in.ctl.decFail {
+				// a Commit that failed is not a Commit: a new instance over the store reports restored and the
+				// committed root exactly as before it
+				ss.count("commit:failed-identifier-encoder")
+				p := in.probe()
+				if p.restored() != (in.commits > 0) {
+					ss.fail("restored-iff-committed", "commit", in, fmt.Sprintf("after a failed Commit a new instance reports WasRestoredFromStorage() = %v; %d Commits succeeded", p.restored(), in.commits))
+				}
+				if rt := p.root(); in.commits > 0 && rt != in.commitRoot {
+					ss.fail("reopen-faithful", "commit", in, "after a failed Commit a new instance reports another Root() than the one of the last successful Commit")
+				} else if in.commits == 0 && rt != freshRoot(map[string][]byte{}) {
+					ss.fail("reopen-faithful", "commit", in, "after a failed first Commit a new instance does not report the root of the empty map")
+				}
+			}
 
-			return "err"
+			return ans
+		}
+		if check && in.ctl.encFail {
+			ss.fail("commit-ok", "commit", in, "Commit succeeded although the identifier does not encode")
 		}
 		in.commits++
 		in.committed = copyMap(in.want)
 		in.commitRoot = in.root()
-		if check {
+		if check && !in.ctl.decFail {
 			ss.checkProbe(in, "commit")
 		}
 
@@ -957,6 +1004,9 @@ func (ss *session) execOn(in *inst, idx int, f []string) string {
 		if nodes > 0 {
 			ns = "+"
 		}
+		if in.garbage {
+			ns = "?"
+		}
 		if check {
 			if len(rawBytes) != len(in.want) {
 				ss.fail("layout", "peek", in, fmt.Sprintf("%d raw keys below realm+{0}, the plain map holds %d keys", len(rawBytes), len(in.want)))
@@ -976,7 +1026,7 @@ func (ss *session) execOn(in *inst, idx int, f []string) string {
 			} else if rerr == nil && !bytes.Equal(rootB, encBytes(in.codec.id, tagID, in.commitRoot[:])) {
 				ss.fail("layout", "peek", in, "root cell realm+{2} does not hold the stored form of the Root() of the last Commit")
 			}
-			if (nodes > 0) != (len(in.committed) > 0) {
+			if (nodes > 0) != (len(in.committed) > 0) && !in.garbage {
 				ss.fail("layout", "peek", in, fmt.Sprintf("%d trie records below realm+{1}, the last Commit flushed %d keys", nodes, len(in.committed)))
 			}
 		}
@@ -1045,6 +1095,12 @@ func (ss *session) execOn(in *inst, idx int, f []string) string {
 		return fmt.Sprintf("class %d", cls)
 	case "reopen":
 		clean := canon(in.want) == canon(in.committed)
+		if has, _ := in.db.Has(append(clone(in.realm), 2)); has && in.ctl.decFail {
+			// the identifier in the root cell does not decode: the constructor starts a new trie over the old
+			// records; a serializer pair that does not round-trip is outside the property
+			clean, in.garbage = false, true
+			ss.count("reopen:failing-identifier-decoder")
+		}
 		if !clean || in.tainted {
 			// the code is followed (and compared with the Lean model), the property is silent
 			in.tainted = true
@@ -1197,6 +1253,7 @@ type gen struct {
 	tok     []string // per instance: flavour[:codec]
 	vals    []string // value alphabet of a random session
 	dirtyOK bool
+	idfail  bool // the session contains episodes with failing identifier serializers
 	// generator-side knowledge, only used to place reopen requests at commit points
 	pending []bool
 }
@@ -1280,7 +1337,29 @@ func (g *gen) rmwOp(i int, k, b string) string {
 
 var rmwBytes = []string{"61", "62", "00", "7f", "41"}
 
+// idfailEpisode: the identifier encoder fails during a Commit (which must change nothing), or the decoder
+// fails while a new instance is constructed (new trie over the old records; the property is silent from then on).
+func (g *gen) idfailEpisode(i int) []string {
+	switch g.rng.Intn(4) {
+	case 0, 1:
+		return []string{fmt.Sprintf("idfail %d enc", i), fmt.Sprintf("commit %d", i), fmt.Sprintf("restored %d", i), fmt.Sprintf("idfail %d off", i)}
+	case 2:
+		ops := []string{fmt.Sprintf("idfail %d dec", i), fmt.Sprintf("reopen %d", i), fmt.Sprintf("restored %d", i), g.readOp(i), fmt.Sprintf("idfail %d off", i)}
+		if g.rng.Bool() {
+			g.pending[i] = false
+			ops = append(ops, fmt.Sprintf("commit %d", i), fmt.Sprintf("reopen %d", i), fmt.Sprintf("peek %d", i))
+		}
+
+		return ops
+	}
+
+	return []string{fmt.Sprintf("idfail %d both", i), fmt.Sprintf("commit %d", i), fmt.Sprintf("reopen %d", i), fmt.Sprintf("idfail %d off", i)}
+}
+
 func (g *gen) randomOp(i int) []string {
+	if g.idfail && g.rng.Chance(1, 12) {
+		return g.idfailEpisode(i)
+	}
 	switch x := g.rng.Intn(100); {
 	case x < 8 && g.flavour[i] != "set":
 		return []string{g.rmwOp(i, g.key(), hx.Pick(g.rng, rmwBytes))}
@@ -1357,6 +1436,9 @@ func (g *gen) pathTo(i int, target map[string]string) []string {
 			tasks = append(tasks[:j], tasks[j+1:]...)
 		}
 		switch x := g.rng.Intn(100); {
+		case x < 3 && g.idfail:
+			// a Commit with a failing identifier encoder changes nothing (the history stays clean)
+			ops = append(ops, fmt.Sprintf("idfail %d enc", i), fmt.Sprintf("commit %d", i), fmt.Sprintf("idfail %d off", i))
 		case x < 8:
 			g.pending[i] = false
 			ops = append(ops, fmt.Sprintf("commit %d", i))
@@ -1442,6 +1524,7 @@ func genSession(rng *hx.Rng, clusters []mine.Cluster, nOps int) []string {
 	}
 	g.pending = make([]bool, nInst)
 	g.dirtyOK = rng.Chance(1, 16)
+	g.idfail = rng.Chance(1, 5)
 	var ops []string
 	// 2 of 5 sessions: all instances over realm views of ONE shared database (sibling realms, nested
 	// realms, a realm that is a prefix of another, the bare database next to realms)
@@ -1704,6 +1787,17 @@ func main() {
 	corpus = append(corpus, []string{"open 0 mapa", "open 1 map", "set 0 " + k.Core[0] + " 61616161", "root 0", "rmw 0 " + k.Core[0] + " 62", "get 0 " + k.Core[0], "root 0",
 		"set 1 " + k.Core[0] + " 62616161", "root 1", "commit 0", "reopen 0", "get 0 " + k.Core[0], "root 0", "rmw 0 " + k.Core[0] + " 61", "rmw 0 " + k.Core[1] + " 61",
 		"commit 0", "rmw 0 " + k.Core[0] + " 62", "commit 0", "reopen 0", "root 0", "get 0 " + k.Core[0], "size 0", "stream 0 0"})
+	// non-identity identifier / key / value serializers: reopen through the stored form of the root, raw keys in the
+	// order of their stored form, one root class for equal stored contents
+	corpus = append(corpus, []string{"open 0 map:pri", "open 1 mapa:lri", "open 2 set:rpi", "open 3 map:ilp", "commit 2", "reopen 2", "root 2", "restored 2",
+		"set 0 " + k.Core[0] + " 61", "set 0 " + k.Core[1] + " -", "set 1 " + k.Core[1] + " nil", "set 1 " + k.Core[0] + " 61", "root 0", "root 1", "peek 0",
+		"commit 0", "reopen 0", "root 0", "stream 0 0", "get 0 " + k.Core[0], "add 2 " + k.Core[0], "commit 2", "reopen 2", "has 2 " + k.Core[0], "peek 2",
+		"set 3 " + k.Core[0] + " -", "set 3 " + k.Far[0] + " cc0102", "get 3 " + k.Far[0], "commit 3", "reopen 3", "stream 3 0", "peek 3", "root 3", "rmw 1 " + k.Core[0] + " 62", "root 1"})
+	// failing identifier serializers: a failed Commit is no Commit; a constructor that cannot decode the root starts anew
+	corpus = append(corpus, []string{"open 0 map", "set 0 " + k.Core[0] + " 61", "idfail 0 enc", "commit 0", "restored 0", "peek 0", "reopen 0", "has 0 " + k.Core[0],
+		"idfail 0 off", "set 0 " + k.Core[0] + " 61", "commit 0", "restored 0", "set 0 " + k.Core[1] + " 62", "idfail 0 enc", "commit 0", "idfail 0 off", "peek 0", "commit 0",
+		"reopen 0", "root 0", "size 0", "idfail 0 dec", "reopen 0", "restored 0", "has 0 " + k.Core[0], "size 0", "stream 0 0", "root 0", "idfail 0 off", "commit 0", "peek 0",
+		"reopen 0", "has 0 " + k.Core[0], "root 0", "peek 0"})
 	for _, c := range corpus {
 		runCase(r, 0, c)
 	}
